@@ -567,7 +567,8 @@ class Process(StateMachine, persistence.Savable, metaclass=ProcessStateMachineMe
         exception: Optional[BaseException],
         trace: Optional[TracebackType],
     ) -> None:
-        if self.state != process_states.ProcessState.EXCEPTED:
+        # a callback that fails after the process has terminated cannot fail it any more: terminal states are final
+        if not self.has_terminated():
             self.fail(exception, trace)
 
     @contextlib.contextmanager
